@@ -7,6 +7,7 @@ import ScsiVerif.Model.Facade
 import ScsiVerif.Model.Attach
 import ScsiVerif.Model.Sense
 import ScsiVerif.Model.Exec
+import ScsiVerif.Model.Handle
 import ScsiVerif.Std.Sense
 import ScsiVerif.Gen.Commands
 import ScsiVerif.Gen.Opcodes
@@ -171,6 +172,16 @@ def cmdOp (toks : List String) : Option String :=
     let so : Option Conv.Bytes → String := fun | some b => showBytes b | none => "n"
     pure ("ok " ++ (match r.out with | .returned => "returned" | .raised e => "raised:" ++ e) ++
       " raw=" ++ so r.rawSense ++ " err=" ++ so r.errSense)
+  -- handlerun <detect 0|1> <x|r|u|f1|f0|c , …> : observations ; handles (ino/open/closeCalls) ; cur
+  | ["handlerun", d, evs] => do
+    let es ← (splitOn evs ",").mapM (fun e => match e with
+      | "x" => some Handle.Ev.execute | "r" => some .replug | "u" => some .unplug
+      | "f1" => some (.setCloseFail true) | "f0" => some (.setCloseFail false) | "c" => some .close | _ => none)
+    let (w, obs) := Handle.run (Handle.init (d == "1")) es
+    let so : Handle.Obs → String := fun | .sent h => "sent" ++ toString h | .error e => "err:" ++ e | .ok => "ok"
+    pure ("ok " ++ ",".intercalate (obs.map so) ++ " " ++
+      ",".intercalate (w.handles.map (fun h => toString h.ino ++ "/" ++ (if h.isOpen then "1" else "0") ++ "/" ++ toString h.closeCalls)) ++
+      " cur=" ++ toString w.cur)
   | ["t10op", name] => pure (match Std.lookup Std.t10Opcodes name with | some v => "ok " ++ toString v | none => "none")
   | ["t10sa", name] => pure (match Std.lookup Std.t10ServiceActions name with | some v => "ok " ++ toString v | none => "none")
   | ["samstatus", name] => pure (match Std.lookup Std.samStatus name with | some v => "ok " ++ toString v | none => "none")
